@@ -211,7 +211,7 @@ package protocol
 //@   assigns[C07] p.tunnel.RemoteAddr, region(identity.User.userName) at p.tunnel.User
 //@   assigns #capsMatched, #capsClient, #hsMajor, #hsMinor, #hsExtAuth
 //@   assigns #errSent, #closeOK, #hsOK, #tcOK, #taOK, #ccOK, #cookieOK, #hostOK, #hostChecked, #reqServer, #reqPort, #dials, #dialAddr, #backend, #fwd, #lastType, #lastStatus, #relayed, #connWrite, #connWriteTo, #connWrites, #lastNow, #reads, #prevChunk, #lastChunk, #readFailed, #cur, #consumed
-//@   ensures[C01] once: #dials <= 1 && #fwd <= 1
+//@   ensures[C01,C11] once: #dials <= 1 && #fwd <= 1
 //@   ensures[C01] errorEnds: #errSent ==> result != nil
 //@   ensures[C01] cleanEnd: result == nil ==> #closeOK
 //@   site (*Tunnel).Write requires[C16] respType: le16(arg1, 0) == uint16(respTypeOf(pt))
